@@ -335,6 +335,13 @@ where
         }
     }
 
+    /// Forget every row of every archetype without dropping any component.
+    pub(crate) fn forget_rows(&mut self) {
+        for archetype in self.iter_mut() {
+            archetype.forget_rows();
+        }
+    }
+
     /// Decrease the allocated capacity to the smallest amount required for the stored data.
     ///
     /// This may not decrease to the most optimal value, as the shrinking is dependent on the
